@@ -43,6 +43,7 @@ pub enum K {
     Rounds, // macro: several rounds of "everyone edits and commits, then everyone exchanges with everyone" (blocks with 3+ parents)
     Burst, // macro: a long run of successive small edits of the same objects (revision indices >= 10, >= 100)
     SameEdit,
+    StaleStage, // macro: staged edits exported and discarded; a concurrent committed edit of the same objects arrives and is refreshed in; the export is replayed onto the moved-on state, then discarded again or committed
     Twins, // macro: the same content reached over two edits on one replica and one edit on another (equal-content leaves with different identifiers), resolved independently and differently on both, exchanged, edited again
     N,
 }
@@ -136,6 +137,14 @@ pub fn profile_for(prop: &str, variant: u64) -> Profile {
             p.net_faults = false;
             p.common_base = 50;
             p.converge_end = 10;
+            if variant % 5 == 0 {
+                // commits that fail at a storage write, are given up or retried: whatever commit
+                // finally reports success must be durable
+                p.name = "commit-durability-write-faults";
+                w[K::FailRedo as usize] = 8;
+                w[K::FailWrites as usize] = 6;
+                w[K::Unstage as usize] = 6;
+            }
         }
         "C04" => {
             p.name = "read-after-update";
@@ -152,6 +161,10 @@ pub fn profile_for(prop: &str, variant: u64) -> Profile {
             p.name = if prop == "C05" { "winner-rule" } else { "identifiers" };
             w[K::Burst as usize] = 2;
             w[K::Twins as usize] = 2;
+            w[K::StageSave as usize] = 3;
+            w[K::StageRestore as usize] = 4;
+            w[K::Unstage as usize] = 5;
+            w[K::StaleStage as usize] = 3;
             if prop == "C19" {
                 w[K::SameEdit as usize] = 8;
             }
@@ -181,6 +194,9 @@ pub fn profile_for(prop: &str, variant: u64) -> Profile {
             p.name = "returns";
             w[K::Read as usize] = 6;
             w[K::Twins as usize] = 2;
+            w[K::Burst as usize] = 1;
+            w[K::StaleStage as usize] = 2;
+            w[K::Restart as usize] = 4;
             w[K::TravelRedo as usize] = 3;
             w[K::StageSave as usize] = 2;
             w[K::StageRestore as usize] = 3;
@@ -239,6 +255,11 @@ pub fn profile_for(prop: &str, variant: u64) -> Profile {
             w[K::Reload as usize] = 5;
             w[K::Exchange as usize] = 16;
             w[K::Resolve as usize] = 2;
+            if variant % 5 == 0 {
+                p.name = "maintenance-write-faults";
+                w[K::FailWrites as usize] = 8;
+                w[K::FailRedo as usize] = 4;
+            }
         }
         "C13" => {
             p.name = "commit-graph";
@@ -263,6 +284,7 @@ pub fn profile_for(prop: &str, variant: u64) -> Profile {
             p.replicas = (1, 3);
             w[K::StageSave as usize] = 6;
             w[K::StageRestore as usize] = 8;
+            w[K::StaleStage as usize] = 4;
             w[K::Burst as usize] = 3;
             w[K::Exchange as usize] = 16;
             w[K::Update as usize] = 30;
@@ -598,7 +620,7 @@ impl Gen {
             x if x == K::RoundTrip as usize => vec![Op::StageRoundTrip { r }],
             x if x == K::Snapshot as usize => vec![Op::Snapshot { r }],
             x if x == K::ObjOp as usize => {
-                let kind = self.rng.below(4) as u8;
+                let kind = if self.rng.chance(1, 6) { 4 } else { self.rng.below(4) as u8 };
                 let mut f = serde_json::Map::new();
                 if (w.cfg.prop == "C19" || w.cfg.prop == "C15") && self.rng.chance(1, 4) {
                     // a character-code object: its digest is the code itself (upper and lower case hex)
@@ -833,6 +855,50 @@ impl Gen {
                     v.push(Op::ObjOp { r, kind: 0, id_sel: self.rng.next() as u32, fields: json!({"v": "after"}) });
                     v.push(Op::Commit { r, info: None });
                     v.push(Op::Reload { r });
+                    v
+                }
+            }
+            x if x == K::StaleStage as usize => {
+                if n < 2 || w.replicas[r].time_travel || w.replicas[other].time_travel {
+                    vec![Op::Reload { r }]
+                } else {
+                    let mut v = vec![];
+                    for q in [r, other] {
+                        if self.staging(w, q) {
+                            v.push(Op::Commit { r: q, info: None });
+                        }
+                    }
+                    v.extend([Op::Meld { r, from: other }, Op::Refresh { r }, Op::Meld { r: other, from: r }, Op::Refresh { r: other }]);
+                    // both edit the same objects from the same version: r only stages, other commits
+                    let base = self.next_doc(w, r);
+                    let touch = |doc: &Value, tag: &str, i: u64| -> Value {
+                        let mut d = doc.clone();
+                        if let Some(o) = d.as_object_mut() {
+                            o.insert("n".to_string(), json!(format!("{}{}", tag, i)));
+                            if let Some(Value::Array(a)) = o.get_mut(docgen::ARRAY_KEYS[0]) {
+                                if let Some(e) = a.first_mut().and_then(|e| e.as_object_mut()) {
+                                    if !e.contains_key("#") {
+                                        e.insert("k".to_string(), json!(format!("{}{}", tag, i)));
+                                    }
+                                }
+                            }
+                        }
+                        d
+                    };
+                    let i = self.rng.below(1000) as u64;
+                    v.push(Op::Update { r, doc: touch(&base, "mine", i), twice: false });
+                    if self.rng.chance(1, 2) {
+                        v.push(Op::Update { r, doc: touch(&base, "mine", i + 1), twice: false });
+                    }
+                    v.push(Op::StageSave { r, keep: false });
+                    v.extend([Op::Update { r: other, doc: touch(&base, "theirs", i), twice: false }, Op::Commit { r: other, info: None }]);
+                    v.extend([Op::Meld { r, from: other }, Op::Refresh { r }, Op::StageRestore { r }]);
+                    match self.rng.below(3) {
+                        0 => v.push(Op::Unstage { r }),
+                        1 => v.extend([Op::StageRoundTrip { r }, Op::Unstage { r }]),
+                        _ => v.push(Op::Commit { r, info: None }),
+                    }
+                    v.push(Op::Refresh { r });
                     v
                 }
             }
